@@ -26,12 +26,14 @@ upclose = Origin(_always(None))
 up200 = Origin(_always(b'HTTP/1.1 200 OK\r\nSession-Id: 5\r\n\r\n'))
 hp, sp, sap, snu, ap = free_port(), free_port(), free_port(), free_port(), free_port()
 UDPL = {k: free_port() for k in ('u403', 'uclose', 'u200')}
+SENF = free_port()
 cfg = {
     'listeners': [
         {'name': 'http', 'bind': f'127.0.0.1:{hp}'},
         {'name': 'socks', 'bind': f'127.0.0.1:{sp}'},
         {'name': 'socksauth', 'type': 'socks', 'bind': f'127.0.0.1:{sap}', 'auth': {'required': True, 'users': [{'username': 'u', 'password': 'p'}]}},
         {'name': 'socksnoudp', 'type': 'socks', 'bind': f'127.0.0.1:{snu}', 'allowUdp': False},
+        {'name': 'socksenf', 'type': 'socks', 'bind': f'127.0.0.1:{SENF}', 'enforceUdpClient': True},
     ] + [{'name': f'socks-{k}', 'type': 'socks', 'bind': f'127.0.0.1:{UDPL[k]}'} for k in UDPL],
     'connectors': [
         {'name': 'direct'},
@@ -224,6 +226,8 @@ def s4bind():
         return 'nothing', None, True, r
     return 'failure', (None if len(r) == 8 and not extra else f'reply {r.hex()} + {extra.hex()}'), how in ('eof', 'reset'), r
 special('socks4-bind', s4bind, True)
+# UDP ASSOCIATE announcing a client address the relay socket cannot be tied to (IPv6 address, IPv4 listener, enforceUdpClient)
+special('socks5-udp-associate-unusable-client-address', s5(SENF, cmd=3, thost='2001:db8::1', tport=4000), True)
 def s4auth():
     s = socket.create_connection(('127.0.0.1', sap), timeout=5)
     s.sendall(bytes([4, 1]) + struct.pack('>H', echo4.port) + socket.inet_aton('127.0.0.1') + b'nobody\0')
